@@ -221,7 +221,12 @@ class DatabaseService(Service, discriminator="database-service"):
                     f"{self.name}: Connection request ({connection_request_id}) from {src_ip} declined, service is at "
                     f"capacity."
                 )
-            if self.health_state_actual in [
+            # an OVERWHELMED service takes connections again as soon as there is room (add_connection resets the state)
+            has_room_again = (
+                self.health_state_actual == SoftwareHealthState.OVERWHELMED
+                and len(self._connections) < self.max_sessions
+            )
+            if has_room_again or self.health_state_actual in [
                 SoftwareHealthState.GOOD,
                 SoftwareHealthState.FIXING,
                 SoftwareHealthState.COMPROMISED,
